@@ -558,7 +558,9 @@ func callSSA(i *interpreter, caller *frame, callpos token.Pos, fn *ssa.Function,
 			if i.mode&EnableTracing != 0 {
 				fmt.Fprintln(os.Stderr, "\t(intrinsic)")
 			}
-			return ext(fr, args)
+			if r := ext(fr, args); r != (declined{}) {
+				return r
+			}
 		}
 		if fn.Blocks == nil {
 			unsupported("no code for function: %s", fn.String())
